@@ -499,12 +499,15 @@ class _ReachingDefs(DefaultVisitor):
     def _visit_for(self, stmt: ForStmt, ctx: _DefCtx):
         # visit iterable expression
         self._visit_expr(stmt.iterable, ctx)
-        # create (temporary) phi nodes for any mutated variable
+        # create (temporary) phi nodes for any mutated variable; the loop
+        # target is one of them when the name is already defined: it stays
+        # bound after the loop, which may also run zero times
         body_in = ctx.copy()
-        mutated = ctx.keys() & self.def_ids[stmt.body]
+        mutated = ctx.keys() & (self.def_ids[stmt.body] | stmt.target.names())
+        header: _DefCtx = {}
         for intro in mutated:
             # create (temporary) phi node `x' = phi(x, x)`
-            _, body_in = self._add_phi(intro, stmt, ctx[intro], ctx[intro], body_in, is_loop=True)
+            header[intro], body_in = self._add_phi(intro, stmt, ctx[intro], ctx[intro], body_in, is_loop=True)
         # introduce new definition for the loop variable
         for name in stmt.target.names():
             _, body_in = self._add_assign(name, stmt, body_in)
@@ -516,7 +519,7 @@ class _ReachingDefs(DefaultVisitor):
             # create actual phi node `x' = phi(x, x'')` where
             # `x` is on entry and `x''` is after the loop body
             phi, ctx = self._add_phi(name, stmt, ctx[name], body_out[name], ctx, is_loop=True)
-            phis[name] = self._unify_def(phi, body_in[name])
+            phis[name] = self._unify_def(phi, header[name])
         # record the phi nodes and return the updated context
         self.phis[stmt] = phis
         return ctx
